@@ -23,6 +23,11 @@ RevertIk(t, ik, g)      == MkReq("revert", <<>>, "lit", FALSE, "", ik, FALSE, t,
 SetAcct(a, v)           == MkReq("setmeta", <<>>, "lit", FALSE, "", "", FALSE, -1, a, v, 0)
 SetAcctIk(a, v, ik, g)  == MkReq("setmeta", <<>>, "lit", FALSE, "", ik, FALSE, -1, a, v, g)
 SetAcctDry(a, v)        == MkReq("setmeta", <<>>, "lit", FALSE, "", "", TRUE, -1, a, v, 0)
+RevertDry(t, force)     == MkReq("revert", <<>>, "lit", force, "", "", TRUE, t, "", "", 0)
+DelAcctDry(a)           == MkReq("delmeta", <<>>, "lit", FALSE, "", "", TRUE, -1, a, "", 0)
+SetTxDry(t)             == MkReq("setmeta", <<>>, "lit", FALSE, "", "", TRUE, t, "", "x", 0)
+DelTxDry(t)             == MkReq("delmeta", <<>>, "lit", FALSE, "", "", TRUE, t, "", "", 0)
+CreateMetaDry(ps)       == MkReq("create", ps, "lit", FALSE, "", "", TRUE, -1, "", "am", 0)
 DelAcct(a)              == MkReq("delmeta", <<>>, "lit", FALSE, "", "", FALSE, -1, a, "", 0)
 SetTx(t)                == MkReq("setmeta", <<>>, "lit", FALSE, "", "", FALSE, t, "", "x", 0)
 DelTx(t)                == MkReq("delmeta", <<>>, "lit", FALSE, "", "", FALSE, t, "", "", 0)
@@ -55,4 +60,7 @@ PalRestart == <<Create(WB, "lit"), Create(AB, "lit"), Revert(0, FALSE), SetAcct(
 \* C14: previews of each kind among real writes
 PalDry == <<CreateDry(WB), CreateDry(A2), CreateDry(AB), SetAcctDry("B", "v"), Create(WB, "lit"), Create(AB, "lit"),
             CreateIkDry(WB, "k1"), CreateIk(WB, "k1", 0), CreateRefDry(WC, "r9"), CreateRef(WC, "r9")>>
+\* C14 / C16: previews of the other kinds of write (revert, metadata on transactions and accounts, scripts writing account metadata)
+PalDry2 == <<RevertDry(0, FALSE), RevertDry(0, TRUE), SetTxDry(0), DelTxDry(0), DelAcctDry("B"), CreateMetaDry(WC),
+             Revert(0, FALSE), SetTx(0), Create(AB, "lit")>>
 =============================================================================
